@@ -69,6 +69,8 @@ struct Obj {
   bool handed = false;
   volatile int slot = 0;               // TSan hand-over slot
   long optimize_calls = 0;
+  bool inconsistent = false;           // a reader accepted an LP that is not self-consistent (already reported): do not solve it
+  bool untrusted_model = false;        // the LP came from a faulted file and contains non-finite numbers: no verdict oracles
   bool modified_since_solve = false;   // the LP was modified after the last solve (the next solve is a warm start on a changed LP)
   bool free_row_nonbasic = false;      // at the start of the last optimize a free row (-inf,inf) was nonbasic
   // last returned basis (for reuse checks)
